@@ -18,7 +18,8 @@ EXPLANATION = (
     "update_recursively) are not mutated through any alias (summaries of callees included), and "
     "update_recursively/update_nested perform no destructive operation on d; (d) update_nested stores the old "
     "d[key] into other's chain before overwriting it; (e) update_recursively overwrites an existing key with a "
-    "dictionary value only by recursing.  Does not decide the algebraic laws themselves (relations between values).")
+    "dictionary value only by recursing; (f) the depth counter of intersection/difference is never rebound inside a loop and "
+    "every recursive call passes exactly level - 1.  Does not decide the algebraic laws themselves (relations between values).")
 RULES = {
     "C07-a": "TRUTHY: no branch on the bare truthiness of a value that may be a leaf; presence is tested with `in`",
     "C07-b": "FRESH: intersection returns a deep copy; only recursive results are stored into it",
